@@ -323,10 +323,10 @@ func hm(key []byte, parts ...[]byte) []byte {
 
 func newRFC6979(keydata []byte) *rfc6979 {
 	g := &rfc6979{v: bytes.Repeat([]byte{1}, 32), k: make([]byte, 32)} // b, c
-	g.k = hm(g.k, g.v, []byte{0}, keydata)                              // d
-	g.v = hm(g.k, g.v)                                                  // e
-	g.k = hm(g.k, g.v, []byte{1}, keydata)                              // f
-	g.v = hm(g.k, g.v)                                                  // g
+	g.k = hm(g.k, g.v, []byte{0}, keydata)                             // d
+	g.v = hm(g.k, g.v)                                                 // e
+	g.k = hm(g.k, g.v, []byte{1}, keydata)                             // f
+	g.v = hm(g.k, g.v)                                                 // g
 	return g
 }
 
